@@ -17,9 +17,20 @@
    the regression example D7.
 
    Seekable input (getContents with offset/line pointers): the re-reading loop
-       for *offset > bufSize*3/4 { n = copy(min(bufSize, *offset-bufSize/4)); *offset -= n;
-                                   *line += count('\n'); if n == 0 break }
-       contents = next bufSize bytes. *)
+       for *offset > bufSize*3/4 { n = copy(min(bufSize, *offset-bufSize/4));
+                                   if n > 0 && buf[n-1] == '\r' { n--; Seek(-1, SeekCurrent) }
+                                   *offset -= n; *line += countNewlines(buf[:n]); if n == 0 break }
+       contents = next bufSize bytes.
+
+   COUNTING OF THE DROPPED BYTES.  Every definition takes a flag [crfix]:
+     crfix = true   the code after the repair of finding "cr-window":
+                      countNewlines(b) = Count(b,"\n") + Count(b,"\r") - Count(b,"\r\n")
+                    and a dropped chunk never ends with '\r' (both sites: `if n > 0 && buf[n-1] == '\r' { n-- }`,
+                    the CR stays in the window, so a CR LF pair is never split between dropped bytes and what follows);
+     crfix = false  the code before it: bytes.Count(dropped, "\n"), n as computed.
+   The unsuffixed names ([pipe_step], [seek_loop], [pipe_report], [seek_report]) are the crfix = true instances and
+   are what the theorems of props/C17.v are about; the crfix = false instances ([lf_pipe_report], [lf_seek_report])
+   are kept for the regression Examples and for running the correspondence against a tree without the repair. *)
 From Coq Require Import List ZArith NArith Bool.
 From Verif Require Import common.Sexp c17.ErrPos c17.Spec.
 Import ListNotations.
@@ -27,30 +38,55 @@ Open Scope Z_scope.
 
 Definition bufSize : Z := 16384.
 
+(* ---- counting the dropped bytes ------------------------------------------------------------------ *)
+(* bytes.Count(b, []byte{x}) *)
+Fixpoint count_byte (x : N) (s : list N) : Z :=
+  match s with [] => 0 | b :: r => (if (b =? x)%N then 1 else 0) + count_byte x r end.
+(* bytes.Count(b, "\r\n") (occurrences cannot overlap) *)
+Fixpoint count_crlf (s : list N) : Z :=
+  match s with
+  | [] => 0
+  | b :: r => (if (b =? 13)%N then match r with 10%N :: _ => 1 | _ => 0 end else 0) + count_crlf r
+  end.
+Definition countNewlines (b : list N) : Z := count_byte 10 b + count_byte 13 b - count_crlf b.
+
+(* if n > 0 && buf.Bytes()[n-1] == '\r' { n-- } *)
+Definition keep_cr (n : Z) (buf : list N) : Z :=
+  if (0 <? n) && (zidx buf (n - 1) =? 13)%N then n - 1 else n.
+
+Definition drop_len (crfix : bool) (n : Z) (buf : list N) : Z := if crfix then keep_cr n buf else n.
+Definition dropped_lines (crfix : bool) (chunk : list N) : Z := if crfix then countNewlines chunk else count_lf chunk.
+
 (* ---- non-seekable ----------------------------------------------------------------------------- *)
 Record pstate := { p_rest : list N;   (* the input from buf's read position on *)
                    p_start : Z;       (* i.offset = absolute index of the first byte of buf *)
                    p_line : Z }.      (* i.line *)
 
 (* after a delivered value: the decoder has read r bytes in total (buf.Len() = r - i.offset) and
-   consumed p of them (dec.InputOffset) *)
-Definition pipe_step (st : pstate) (rp : Z * Z) : pstate :=
+   consumed p of them (dec.InputOffset); buf.Bytes() is a prefix of p_rest of length r - i.offset >= n *)
+Definition pipe_step_g (crfix : bool) (st : pstate) (rp : Z * Z) : pstate :=
   let '(r, p) := rp in
   if bufSize <=? r - p_start st then
-    let n := p - p_start st in
+    let n := drop_len crfix (p - p_start st) (p_rest st) in
     {| p_rest := zdrop n (p_rest st); p_start := p_start st + n;
-       p_line := p_line st + count_lf (ztake n (p_rest st)) |}
+       p_line := p_line st + dropped_lines crfix (ztake n (p_rest st)) |}
   else st.
 
-Definition pipe_run (c : list N) (steps : list (Z * Z)) : pstate :=
-  fold_left pipe_step steps {| p_rest := c; p_start := 0; p_line := 0 |}.
+Definition pipe_run_g (crfix : bool) (c : list N) (steps : list (Z * Z)) : pstate :=
+  fold_left (pipe_step_g crfix) steps {| p_rest := c; p_start := 0; p_line := 0 |}.
 
 (* e = Some E: SyntaxError with (absolute) offset E as reported by encoding/json; None: ErrUnexpectedEOF.
    rerr = bytes read when the error was reported. *)
-Definition pipe_report (c : list N) (steps : list (Z * Z)) (rerr : Z) (e : option Z) : list N * Z * json_err :=
-  let st := pipe_run c steps in
+Definition pipe_report_g (crfix : bool) (c : list N) (steps : list (Z * Z)) (rerr : Z) (e : option Z)
+  : list N * Z * json_err :=
+  let st := pipe_run_g crfix c steps in
   let contents := ztake (rerr - p_start st) (p_rest st) in
   (contents, p_line st, match e with Some E => JSyntax (E - p_start st) | None => JUnexpectedEOF end).
+
+Definition pipe_step := pipe_step_g true.
+Definition pipe_run := pipe_run_g true.
+Definition pipe_report := pipe_report_g true.
+Definition lf_pipe_report := pipe_report_g false.
 
 (* the arithmetic before the repair: the whole buffer, read-ahead included, was dropped *)
 Definition old_pipe_step (st : pstate) (rp : Z * Z) : pstate :=
@@ -66,24 +102,29 @@ Definition old_pipe_report (c : list N) (steps : list (Z * Z)) (rerr : Z) (e : o
    match e with Some E => JSyntax (E - p_start st) | None => JUnexpectedEOF end).
 
 (* ---- seekable ----------------------------------------------------------------------------------- *)
-Fixpoint seek_loop (fuel : nat) (rest : list N) (offset line : Z) : list N * Z * Z :=
+Fixpoint seek_loop_g (crfix : bool) (fuel : nat) (rest : list N) (offset line : Z) : list N * Z * Z :=
   match fuel with
   | O => (rest, offset, line)
   | S f =>
       if bufSize * 3 / 4 <? offset then
         let lim := Z.min bufSize (offset - bufSize / 4) in
-        let chunk := ztake lim rest in
-        let n := zlen chunk in
-        if n =? 0 then (zdrop lim rest, offset - n, line + count_lf chunk)
-        else seek_loop f (zdrop lim rest) (offset - n) (line + count_lf chunk)
+        let chunk := ztake lim rest in                      (* io.Copy(&buf, io.LimitReader(ir.rs, lim)) *)
+        let n := drop_len crfix (zlen chunk) chunk in       (* n--; Seek(-1, SeekCurrent): the file position is n *)
+        let line' := line + dropped_lines crfix (ztake n chunk) in
+        if n =? 0 then (zdrop n rest, offset - n, line')
+        else seek_loop_g crfix f (zdrop n rest) (offset - n) line'
       else (rest, offset, line)
   end.
 
 (* e = Some E: *offset = e.Offset (i.offset is 0: buf == nil, no trimming); None: pos = file size *)
-Definition seek_report (c : list N) (e : option Z) : list N * Z * json_err :=
+Definition seek_report_g (crfix : bool) (c : list N) (e : option Z) : list N * Z * json_err :=
   let off0 := match e with Some E => E | None => zlen c end in
-  let '(rest, off, line) := seek_loop (S (List.length c)) c off0 0 in
+  let '(rest, off, line) := seek_loop_g crfix (S (List.length c)) c off0 0 in
   (ztake bufSize rest, line, match e with Some _ => JSyntax off | None => JUnexpectedEOF end).
+
+Definition seek_loop := seek_loop_g true.
+Definition seek_report := seek_report_g true.
+Definition lf_seek_report := seek_report_g false.
 
 (* ---- what the command reports (excerpt, line, column) --------------------------------------------- *)
 Section Width.
@@ -104,10 +145,10 @@ Fixpoint count_lone_cr (c : list N) (n : nat) : Z :=
       (if (b =? 13)%N then match r with 10%N :: _ => 0 | _ => 1 end else 0) + count_lone_cr r n'
   end.
 
-Definition pipe_discarded (c : list N) (steps : list (Z * Z)) : Z := p_start (pipe_run c steps).
-Definition seek_discarded (c : list N) (e : option Z) : Z :=
+Definition pipe_discarded (crfix : bool) (c : list N) (steps : list (Z * Z)) : Z := p_start (pipe_run_g crfix c steps).
+Definition seek_discarded (crfix : bool) (c : list N) (e : option Z) : Z :=
   let off0 := match e with Some E => E | None => zlen c end in
-  let '(_, off, _) := seek_loop (S (List.length c)) c off0 0 in off0 - off.
+  let '(_, off, _) := seek_loop_g crfix (S (List.length c)) c off0 0 in off0 - off.
 
 (* ---- the decoder's behaviour, universally quantified ------------------------------------------------
    steps = (r_i, p_i) for the values delivered before the error: p_i = bytes consumed (nondecreasing,
